@@ -113,7 +113,6 @@ mut("kernel-no-z", "plot/utils.py", "if ok_x and ok_y and ok_z:", "if ok_x and o
 mut("kernel-strict", "plot/utils.py", "                        <= cell_sizes[n]\n                    )\n                    ok_y = True", "                        < cell_sizes[n]\n                    )\n                    ok_y = True", ["C03"])
 mut("kernel-accumulate", "plot/utils.py", "out[:, k, j, i] = cell_values[:, n]", "out[:, k, j, i] += cell_values[:, n]", ["C03"])
 mut("hist-race-again", "plot/utils.py", [("@njit\ndef hist2d", "@njit(parallel=True)\ndef hist2d"), ("    for i in range(len(x)):\n        indx", "    for i in prange(len(x)):\n        indx")], None, ["C05"])
-ben("prange-in-serial-njit", "plot/utils.py", "    for i in range(len(x)):\n        indx", "    for i in prange(len(x)):\n        indx")
 mut("hist-xy-swapped", "plot/utils.py", "counts[indy, indx] += 1", "counts[indx, indy] += 1", ["C05"])
 mut("hist-upper-inclusive", "plot/utils.py", "(indx < nx)", "(indx <= nx)", ["C05"])
 mut("hist-mean-by-sum", "plot/histogram2d.py", "binned[ind, ...] /= counts", "binned[ind, ...] /= counts.sum()", ["C05"])
@@ -159,6 +158,7 @@ ben("msun-spelling", "config/defaults.py", "solar_mass = 1.9889e+33 * g", "solar
 ben("selection-distance-commuted", "plot/map.py", "selection_distance = 0.5 * diagonal * cell_size", "selection_distance = cell_size * (diagonal * 0.5)")
 ben("dg-name-after-store", "core/datagroup.py", "        value.name = key\n        self._container[key] = value", "        self._container[key] = value\n        value.name = key")
 ben("njit-parallel-serial-loop", "plot/utils.py", "@njit\ndef hist2d", "@njit(parallel=True)\ndef hist2d")
+ben("prange-in-serial-njit", "plot/utils.py", "    for i in range(len(x)):\n        indx", "    for i in prange(len(x)):\n        indx")
 ben("dg-get-keyword", "core/dataset.py", "        return self.groups.get(key, default)", "        return self.groups.get(key, default)  # delegate")
 
 
